@@ -20,12 +20,15 @@ def run(c, p):
     elif p["init"] == "scalar":
         ctr = Counter(keys, pyint(c["init"][0]), **kw)
     else:
-        ctr = Counter(keys, arr(c["init"], "int64"), **kw)
+        init_in = arr(c["init"], "int64")
+        ctr = Counter(keys, init_in, **kw)
     for b in c["batches"]:
         if p.get("aslist") and len(b):
             ctr.count([pyint(x) for x in b])
         else:
             ctr.count(arr(b, "int64"))
+    if p["init"] == "array" and p.get("inputs"):
+        return ctr[keys], init_in, keys          # the arrays handed to the constructor still hold what the caller put there
     return ctr[keys]
 
 
@@ -65,7 +68,10 @@ def sym(E, p, kf):
             for s in b:
                 t = t + z3.If(s == k, 1, 0)
         exp.append(t)
-    return dict(goal=specs.obs_goal(got, dict(k="array", flat=exp, shape=[n], dtype="*")), got=got, case=case)
+    want = dict(k="array", flat=exp, shape=[n], dtype="*")
+    if p["init"] == "array" and p.get("inputs"):
+        want = dict(k="tuple", items=[want, dict(k="array", flat=list(init), shape=[n], dtype="*"), dict(k="array", flat=list(keys), shape=[n], dtype="*")])
+    return dict(goal=specs.obs_goal(got, want), got=got, case=case)
 
 
 def conc(case):
@@ -76,7 +82,10 @@ def conc(case):
         t = c["init"][i] if p["init"] == "array" else c["init"][0]
         t += sum(1 for b in c["batches"] for s in b if s == k)
         tot.append(t)
-    return got, common.ref_array(tot, [len(tot)], "*"), {"dtype_matters": False}
+    want = common.ref_array(tot, [len(tot)], "*")
+    if p["init"] == "array" and p.get("inputs"):
+        want = dict(k="tuple", items=[want, common.ref_array(list(c["init"]), [len(tot)], "*"), common.ref_array(list(c["keys"]), [len(tot)], "*")])
+    return got, want, {"dtype_matters": False}
 
 
 def jobs(tier, seed):
@@ -86,6 +95,8 @@ def jobs(tier, seed):
         out.append(dict(n=2, modmax=2 if q else 3, ns=2, batches=1, init=init))
         out.append(dict(n=2, modmax=2, ns=1 if q else 2, batches=2, init=init, defaultmod=not q))
     out.append(dict(n=2, modmax=2, ns=2, batches=1, init="default", aslist=True))
+    out.append(dict(n=2, modmax=2, ns=2, batches=1, init="array", inputs=True))
+    out.append(dict(n=3, fixed_keys=[1, 2, 3], kb=9, modmax=7, ns=2, batches=1, init="array", inputs=True))
     out.append(dict(n=1, modmax=2, ns=3, batches=1, init="default"))
     # concrete key sets (3-4 keys, with and without bucket collisions under the moduli 1..7 and the default), symbolic samples around them
     for fk, init in (([1, 2, 3], "default"), ([8, 1, 15], "array"), ([3, -4, 10, 5], "scalar")):
